@@ -1,33 +1,37 @@
 (* C20 - The command-line tool is a faithful, well-behaved front end to find().
-   The handler tables and the exception hierarchy are REGENERATED from cli.py and exceptions.py (Gen/Cli.v); the
-   generator also recognises, statement by statement, that the output is json.dump(path.find(data).values(), ...).
-   Process I/O (argparse, files, json.load/dump) is outside any Gallina model: the check exercises it with real
-   subprocess runs (partial, stated as such). *)
+   How the front end treats every exception class in every phase, and the exception hierarchy, are REGENERATED on each
+   run by fault injection against the current source (Gen/Cli.v, tools/pygen/cli_probe.py: the library call of the phase
+   is made to raise, with and without --debug), together with one successful run whose output must be the JSON dump of
+   find().values().  Process I/O (argparse, files, json.load/dump) is outside any Gallina model: the check exercises
+   it with real subprocess runs (partial, stated as such). *)
 From JP Require Import Base.Prelude Model.CliLang Gen.Cli.
 
 Definition s_JSONPathError : str := [74; 83; 79; 78; 80; 97; 116; 104; 69; 114; 114; 111; 114]%N.
+Definition s_JSONDecodeError : str := [74; 83; 79; 78; 68; 101; 99; 111; 100; 101; 69; 114; 114; 111; 114]%N.
+Definition s_UnicodeDecodeError : str := [85; 110; 105; 99; 111; 100; 101; 68; 101; 99; 111; 100; 101; 69; 114; 114; 111; 114]%N.
 Definition jsonpath_errors : list str :=
   map fst (filter (fun cb => is_subclass 8 g_exception_classes (fst cb) s_JSONPathError) g_exception_classes).
-Definition well_handled (hs : list handler) (c : str) : bool :=
-  match catching g_exception_classes hs c with
-  | Some h => h_debug_reraise h && h_one_line h && negb (h_exit h =? 0)
-  | None => false
-  end.
 
-(* every JSONPathError subclass, raised by compile() or by find(), is caught: without --debug one line goes to
-   standard error and the exit status is non-zero (nothing was written to the output: the dump comes after both
-   try blocks); with --debug the exception is re-raised *)
+(* without --debug: exit status non-zero, exactly one line on standard error, no traceback, nothing on standard output;
+   with --debug: the exception itself is re-raised *)
+Definition handled_ok (o : obs) : bool :=
+  if o_debug o then o_prop o
+  else negb (o_prop o) && (0 <? o_exit o) && (o_lines o =? 1)%nat && negb (o_tb o) && o_quiet o.
+Definition covered (phase : nat) (c : str) : bool :=
+  existsb (fun o => (o_phase o =? phase)%nat && str_eqb (o_class o) c && o_debug o) g_cli_observed
+  && existsb (fun o => (o_phase o =? phase)%nat && str_eqb (o_class o) c && negb (o_debug o)) g_cli_observed.
+
+(* every JSONPathError subclass, raised by compile() or by find(), is reported in one line with a non-zero exit status
+   (re-raised under --debug), and every one of them was exercised in both phases and both modes *)
 Theorem C20_errors :
-  forallb (well_handled g_compile_handlers) jsonpath_errors = true /\
-  forallb (well_handled g_find_handlers) jsonpath_errors = true /\
+  forallb handled_ok g_cli_observed = true /\
+  forallb (covered 0) jsonpath_errors = true /\ forallb (covered 1) jsonpath_errors = true /\
   (7 <= length jsonpath_errors)%nat.
 Proof. repeat split; vm_compute; reflexivity. Qed.
 Print Assumptions C20_errors.
 
 (* an undecodable document is handled the same way *)
-Theorem C20_decode_errors :
-  well_handled g_find_handlers [74; 83; 79; 78; 68; 101; 99; 111; 100; 101; 69; 114; 114; 111; 114]%N = true /\
-  well_handled g_find_handlers [85; 110; 105; 99; 111; 100; 101; 68; 101; 99; 111; 100; 101; 69; 114; 114; 111; 114]%N = true.
+Theorem C20_decode_errors : covered 2 s_JSONDecodeError = true /\ covered 2 s_UnicodeDecodeError = true.
 Proof. split; vm_compute; reflexivity. Qed.
 Print Assumptions C20_decode_errors.
 
